@@ -146,7 +146,7 @@ impl Prop for Chains {
         120
     }
     fn cases(&self, tier: Tier) -> u64 {
-        tier.pick(100_000, 3_000_000)
+        tier.pick(100_000, 12_000_000)
     }
     fn generate(&self, g: &mut Gen) -> Case {
         let mode = g.below(3) as u8;
